@@ -35,6 +35,27 @@ func retErr(e *string) error {
 
 var unencodable = make(chan int)
 
+// nilSafeObj: an "optional" object (protobuf style): a nil pointer marshals as {"nil":"yes"}
+type nilSafeObj struct{ v int }
+
+func (o *nilSafeObj) MarshalLogObject(enc zapcore.ObjectEncoder) error {
+	if o == nil {
+		enc.AddString("nil", "yes")
+		return nil
+	}
+	enc.AddInt("v", o.v)
+	return nil
+}
+
+// isNilSafeObj recognises the obj field the generator emits for it: exactly one call add("nil","yes") and no error
+func isNilSafeObj(f encField) bool {
+	if f.Err != nil || len(f.Calls) != 1 {
+		return false
+	}
+	c := f.Calls[0]
+	return c.M == "add" && c.Key == hx([]byte("nil")) && c.P != nil && c.P.S != nil && *c.P.S == hx([]byte("yes"))
+}
+
 // reflValue builds the Go value handed to zap.Reflect / AddReflected for a reflected leaf. Healthy and failing values
 // deliberately SHARE static types ([]interface{}, map[string]interface{}): whether a value encodes depends on what is
 // behind the interfaces, never on the static type of the container.
@@ -311,6 +332,10 @@ func buildField(f encField) zapcore.Field {
 			return zap.Reflect(key, json.RawMessage(unhx(*p.J)))
 		}
 	case "obj":
+		if isNilSafeObj(f) {
+			// a typed nil pointer whose MarshalLogObject tolerates the nil receiver: the marshaler must still be CALLED
+			return zap.Object(key, (*nilSafeObj)(nil))
+		}
 		return zap.Object(key, scriptObj{f.Calls, f.Err})
 	case "arr":
 		return zap.Array(key, scriptArr{f.Calls, f.Err})
